@@ -5,7 +5,11 @@
 
 package snapshot
 
-import "sync/atomic"
+import (
+	"sync/atomic"
+
+	"github.com/echovault/sugardb/internal"
+)
 
 // VerifHook, when set, is called at every failpoint with the name of the point and the file (or, for points that
 // do not concern one file, the data directory) it refers to. It runs on the goroutine that takes the snapshot,
@@ -29,3 +33,6 @@ func verifPoint(point string, file string) {
 
 // VerifChangeCount reports the number of changes counted since the last snapshot.
 func (engine *Engine) VerifChangeCount() uint64 { return engine.changeCount.Load() }
+
+// VerifGetState calls the function the engine copies the state with when it takes a snapshot.
+func (engine *Engine) VerifGetState() map[int]map[string]internal.KeyData { return engine.getStateFunc() }
